@@ -142,18 +142,18 @@ Proof. intros v H. apply representable_encodes_asn_dotted_part. apply accept_iff
 (* community_high *)
 Lemma representable_encodes_community_high : forall v, repr_community_high v = true -> dec_community_high (enc_community_high v) = v /\ length (enc_community_high v) = 2%nat.
 Proof. intros v H. apply (u_encodes 2 16); [vm_compute; discriminate | exact H]. Qed.
-Lemma community_high_refuted : exists v, accept_community_high v <> repr_community_high v.
-Proof. text_refute (65536). Qed.
-Lemma community_high_partial : forall v, repr_community_high v = true -> accept_community_high v = true.
+Lemma accept_iff_repr_community_high : forall v, accept_community_high v = true <-> repr_community_high v = true.
 Proof. intros v; unfold accept_community_high, repr_community_high; text_iff. Qed.
+Lemma accepted_encodes_community_high : forall v, accept_community_high v = true -> dec_community_high (enc_community_high v) = v /\ length (enc_community_high v) = 2%nat.
+Proof. intros v H. apply representable_encodes_community_high. apply accept_iff_repr_community_high. exact H. Qed.
 
 (* community_low *)
 Lemma representable_encodes_community_low : forall v, repr_community_low v = true -> dec_community_low (enc_community_low v) = v /\ length (enc_community_low v) = 2%nat.
 Proof. intros v H. apply (u_encodes 2 16); [vm_compute; discriminate | exact H]. Qed.
-Lemma community_low_refuted : exists v, accept_community_low v <> repr_community_low v.
-Proof. text_refute (65536). Qed.
-Lemma community_low_partial : forall v, repr_community_low v = true -> accept_community_low v = true.
+Lemma accept_iff_repr_community_low : forall v, accept_community_low v = true <-> repr_community_low v = true.
 Proof. intros v; unfold accept_community_low, repr_community_low; text_iff. Qed.
+Lemma accepted_encodes_community_low : forall v, accept_community_low v = true -> dec_community_low (enc_community_low v) = v /\ length (enc_community_low v) = 2%nat.
+Proof. intros v H. apply representable_encodes_community_low. apply accept_iff_repr_community_low. exact H. Qed.
 
 (* community_number *)
 Lemma representable_encodes_community_number : forall v, repr_community_number v = true -> dec_community_number (enc_community_number v) = v /\ length (enc_community_number v) = 4%nat.
@@ -166,10 +166,10 @@ Proof. intros v H. apply representable_encodes_community_number. apply accept_if
 (* large_community_part *)
 Lemma representable_encodes_large_community_part : forall v, repr_large_community_part v = true -> dec_large_community_part (enc_large_community_part v) = v /\ length (enc_large_community_part v) = 4%nat.
 Proof. intros v H. apply (u_encodes 4 32); [vm_compute; discriminate | exact H]. Qed.
-Lemma large_community_part_refuted : exists v, accept_large_community_part v <> repr_large_community_part v.
-Proof. text_refute (4294967296). Qed.
-Lemma large_community_part_partial : forall v, repr_large_community_part v = true -> accept_large_community_part v = true.
+Lemma accept_iff_repr_large_community_part : forall v, accept_large_community_part v = true <-> repr_large_community_part v = true.
 Proof. intros v; unfold accept_large_community_part, repr_large_community_part; text_iff. Qed.
+Lemma accepted_encodes_large_community_part : forall v, accept_large_community_part v = true -> dec_large_community_part (enc_large_community_part v) = v /\ length (enc_large_community_part v) = 4%nat.
+Proof. intros v H. apply representable_encodes_large_community_part. apply accept_iff_repr_large_community_part. exact H. Qed.
 
 (* label *)
 Lemma representable_encodes_label : forall v, repr_label v = true -> dec_label (enc_label v) = v /\ length (enc_label v) = 3%nat.
@@ -182,26 +182,26 @@ Proof. intros v H. apply representable_encodes_label. apply accept_iff_repr_labe
 (* path_information *)
 Lemma representable_encodes_path_information : forall v, repr_path_information v = true -> dec_path_information (enc_path_information v) = v /\ length (enc_path_information v) = 4%nat.
 Proof. intros v H. apply (u_encodes 4 32); [vm_compute; discriminate | exact H]. Qed.
-Lemma path_information_refuted : exists v, accept_path_information v <> repr_path_information v.
-Proof. text_refute (4294967296). Qed.
-Lemma path_information_partial : forall v, repr_path_information v = true -> accept_path_information v = true.
+Lemma accept_iff_repr_path_information : forall v, accept_path_information v = true <-> repr_path_information v = true.
 Proof. intros v; unfold accept_path_information, repr_path_information; text_iff. Qed.
+Lemma accepted_encodes_path_information : forall v, accept_path_information v = true -> dec_path_information (enc_path_information v) = v /\ length (enc_path_information v) = 4%nat.
+Proof. intros v H. apply representable_encodes_path_information. apply accept_iff_repr_path_information. exact H. Qed.
 
 (* attribute_code *)
 Lemma representable_encodes_attribute_code : forall v, repr_attribute_code v = true -> dec_attribute_code (enc_attribute_code v) = v /\ length (enc_attribute_code v) = 1%nat.
 Proof. intros v H. apply (u_encodes 1 8); [vm_compute; discriminate | exact H]. Qed.
-Lemma attribute_code_refuted : exists v, accept_attribute_code v <> repr_attribute_code v.
-Proof. text_refute (256). Qed.
-Lemma attribute_code_partial : forall v, repr_attribute_code v = true -> accept_attribute_code v = true.
+Lemma accept_iff_repr_attribute_code : forall v, accept_attribute_code v = true <-> repr_attribute_code v = true.
 Proof. intros v; unfold accept_attribute_code, repr_attribute_code; text_iff. Qed.
+Lemma accepted_encodes_attribute_code : forall v, accept_attribute_code v = true -> dec_attribute_code (enc_attribute_code v) = v /\ length (enc_attribute_code v) = 1%nat.
+Proof. intros v H. apply representable_encodes_attribute_code. apply accept_iff_repr_attribute_code. exact H. Qed.
 
 (* attribute_flag *)
 Lemma representable_encodes_attribute_flag : forall v, repr_attribute_flag v = true -> dec_attribute_flag (enc_attribute_flag v) = v /\ length (enc_attribute_flag v) = 1%nat.
 Proof. intros v H. apply (u_encodes 1 8); [vm_compute; discriminate | exact H]. Qed.
-Lemma attribute_flag_refuted : exists v, accept_attribute_flag v <> repr_attribute_flag v.
-Proof. text_refute (256). Qed.
-Lemma attribute_flag_partial : forall v, repr_attribute_flag v = true -> accept_attribute_flag v = true.
+Lemma accept_iff_repr_attribute_flag : forall v, accept_attribute_flag v = true <-> repr_attribute_flag v = true.
 Proof. intros v; unfold accept_attribute_flag, repr_attribute_flag; text_iff. Qed.
+Lemma accepted_encodes_attribute_flag : forall v, accept_attribute_flag v = true -> dec_attribute_flag (enc_attribute_flag v) = v /\ length (enc_attribute_flag v) = 1%nat.
+Proof. intros v H. apply representable_encodes_attribute_flag. apply accept_iff_repr_attribute_flag. exact H. Qed.
 
 (* vpls_endpoint *)
 Lemma representable_encodes_vpls_endpoint : forall v, repr_vpls_endpoint v = true -> dec_vpls_endpoint (enc_vpls_endpoint v) = v /\ length (enc_vpls_endpoint v) = 2%nat.
@@ -230,10 +230,10 @@ Proof. intros v H. apply representable_encodes_vpls_offset. apply accept_iff_rep
 (* vpls_base *)
 Lemma representable_encodes_vpls_base : forall v, repr_vpls_base v = true -> dec_vpls_base (enc_vpls_base v) = v /\ length (enc_vpls_base v) = 3%nat.
 Proof. exact label_encodes. Qed.
-Lemma vpls_base_refuted : exists v, accept_vpls_base v <> repr_vpls_base v.
-Proof. text_refute (65536). Qed.
-Lemma vpls_base_partial : forall v, accept_vpls_base v = true -> repr_vpls_base v = true.
+Lemma accept_iff_repr_vpls_base : forall v, accept_vpls_base v = true <-> repr_vpls_base v = true.
 Proof. intros v; unfold accept_vpls_base, repr_vpls_base; text_iff. Qed.
+Lemma accepted_encodes_vpls_base : forall v, accept_vpls_base v = true -> dec_vpls_base (enc_vpls_base v) = v /\ length (enc_vpls_base v) = 3%nat.
+Proof. intros v H. apply representable_encodes_vpls_base. apply accept_iff_repr_vpls_base. exact H. Qed.
 
 (* flow_port *)
 Lemma representable_encodes_flow_port : forall v, repr_flow_port v = true -> dec_flow_port (enc_flow_port v) = v /\ (length (enc_flow_port v) = 1%nat \/ length (enc_flow_port v) = 2%nat).
@@ -246,42 +246,42 @@ Proof. intros v H. apply representable_encodes_flow_port. apply accept_iff_repr_
 (* flow_packet_length *)
 Lemma representable_encodes_flow_packet_length : forall v, repr_flow_packet_length v = true -> dec_flow_packet_length (enc_flow_packet_length v) = v /\ (length (enc_flow_packet_length v) = 1%nat \/ length (enc_flow_packet_length v) = 2%nat).
 Proof. exact flow12_encodes. Qed.
-Lemma flow_packet_length_refuted : exists v, accept_flow_packet_length v <> repr_flow_packet_length v.
-Proof. text_refute (-1). Qed.
-Lemma flow_packet_length_partial : forall v, repr_flow_packet_length v = true -> accept_flow_packet_length v = true.
+Lemma accept_iff_repr_flow_packet_length : forall v, accept_flow_packet_length v = true <-> repr_flow_packet_length v = true.
 Proof. intros v; unfold accept_flow_packet_length, repr_flow_packet_length; text_iff. Qed.
+Lemma accepted_encodes_flow_packet_length : forall v, accept_flow_packet_length v = true -> dec_flow_packet_length (enc_flow_packet_length v) = v /\ (length (enc_flow_packet_length v) = 1%nat \/ length (enc_flow_packet_length v) = 2%nat).
+Proof. intros v H. apply representable_encodes_flow_packet_length. apply accept_iff_repr_flow_packet_length. exact H. Qed.
 
 (* flow_protocol *)
 Lemma representable_encodes_flow_protocol : forall v, repr_flow_protocol v = true -> dec_flow_protocol (enc_flow_protocol v) = v /\ length (enc_flow_protocol v) = 1%nat.
 Proof. intros v H. apply (u_encodes 1 8); [vm_compute; discriminate | exact H]. Qed.
-Lemma flow_protocol_refuted : exists v, accept_flow_protocol v <> repr_flow_protocol v.
-Proof. text_refute (256). Qed.
-Lemma flow_protocol_partial : forall v, repr_flow_protocol v = true -> accept_flow_protocol v = true.
+Lemma accept_iff_repr_flow_protocol : forall v, accept_flow_protocol v = true <-> repr_flow_protocol v = true.
 Proof. intros v; unfold accept_flow_protocol, repr_flow_protocol; text_iff. Qed.
+Lemma accepted_encodes_flow_protocol : forall v, accept_flow_protocol v = true -> dec_flow_protocol (enc_flow_protocol v) = v /\ length (enc_flow_protocol v) = 1%nat.
+Proof. intros v H. apply representable_encodes_flow_protocol. apply accept_iff_repr_flow_protocol. exact H. Qed.
 
 (* flow_next_header *)
 Lemma representable_encodes_flow_next_header : forall v, repr_flow_next_header v = true -> dec_flow_next_header (enc_flow_next_header v) = v /\ length (enc_flow_next_header v) = 1%nat.
 Proof. intros v H. apply (u_encodes 1 8); [vm_compute; discriminate | exact H]. Qed.
-Lemma flow_next_header_refuted : exists v, accept_flow_next_header v <> repr_flow_next_header v.
-Proof. text_refute (256). Qed.
-Lemma flow_next_header_partial : forall v, repr_flow_next_header v = true -> accept_flow_next_header v = true.
+Lemma accept_iff_repr_flow_next_header : forall v, accept_flow_next_header v = true <-> repr_flow_next_header v = true.
 Proof. intros v; unfold accept_flow_next_header, repr_flow_next_header; text_iff. Qed.
+Lemma accepted_encodes_flow_next_header : forall v, accept_flow_next_header v = true -> dec_flow_next_header (enc_flow_next_header v) = v /\ length (enc_flow_next_header v) = 1%nat.
+Proof. intros v H. apply representable_encodes_flow_next_header. apply accept_iff_repr_flow_next_header. exact H. Qed.
 
 (* flow_icmp_type *)
 Lemma representable_encodes_flow_icmp_type : forall v, repr_flow_icmp_type v = true -> dec_flow_icmp_type (enc_flow_icmp_type v) = v /\ length (enc_flow_icmp_type v) = 1%nat.
 Proof. intros v H. apply (u_encodes 1 8); [vm_compute; discriminate | exact H]. Qed.
-Lemma flow_icmp_type_refuted : exists v, accept_flow_icmp_type v <> repr_flow_icmp_type v.
-Proof. text_refute (256). Qed.
-Lemma flow_icmp_type_partial : forall v, repr_flow_icmp_type v = true -> accept_flow_icmp_type v = true.
+Lemma accept_iff_repr_flow_icmp_type : forall v, accept_flow_icmp_type v = true <-> repr_flow_icmp_type v = true.
 Proof. intros v; unfold accept_flow_icmp_type, repr_flow_icmp_type; text_iff. Qed.
+Lemma accepted_encodes_flow_icmp_type : forall v, accept_flow_icmp_type v = true -> dec_flow_icmp_type (enc_flow_icmp_type v) = v /\ length (enc_flow_icmp_type v) = 1%nat.
+Proof. intros v H. apply representable_encodes_flow_icmp_type. apply accept_iff_repr_flow_icmp_type. exact H. Qed.
 
 (* flow_icmp_code *)
 Lemma representable_encodes_flow_icmp_code : forall v, repr_flow_icmp_code v = true -> dec_flow_icmp_code (enc_flow_icmp_code v) = v /\ length (enc_flow_icmp_code v) = 1%nat.
 Proof. intros v H. apply (u_encodes 1 8); [vm_compute; discriminate | exact H]. Qed.
-Lemma flow_icmp_code_refuted : exists v, accept_flow_icmp_code v <> repr_flow_icmp_code v.
-Proof. text_refute (256). Qed.
-Lemma flow_icmp_code_partial : forall v, repr_flow_icmp_code v = true -> accept_flow_icmp_code v = true.
+Lemma accept_iff_repr_flow_icmp_code : forall v, accept_flow_icmp_code v = true <-> repr_flow_icmp_code v = true.
 Proof. intros v; unfold accept_flow_icmp_code, repr_flow_icmp_code; text_iff. Qed.
+Lemma accepted_encodes_flow_icmp_code : forall v, accept_flow_icmp_code v = true -> dec_flow_icmp_code (enc_flow_icmp_code v) = v /\ length (enc_flow_icmp_code v) = 1%nat.
+Proof. intros v H. apply representable_encodes_flow_icmp_code. apply accept_iff_repr_flow_icmp_code. exact H. Qed.
 
 (* flow_dscp *)
 Lemma representable_encodes_flow_dscp : forall v, repr_flow_dscp v = true -> dec_flow_dscp (enc_flow_dscp v) = v /\ length (enc_flow_dscp v) = 1%nat.
@@ -294,10 +294,10 @@ Proof. intros v H. apply representable_encodes_flow_dscp. apply accept_iff_repr_
 (* flow_traffic_class *)
 Lemma representable_encodes_flow_traffic_class : forall v, repr_flow_traffic_class v = true -> dec_flow_traffic_class (enc_flow_traffic_class v) = v /\ length (enc_flow_traffic_class v) = 1%nat.
 Proof. intros v H. apply (u_encodes 1 8); [vm_compute; discriminate | exact H]. Qed.
-Lemma flow_traffic_class_refuted : exists v, accept_flow_traffic_class v <> repr_flow_traffic_class v.
-Proof. text_refute (256). Qed.
-Lemma flow_traffic_class_partial : forall v, repr_flow_traffic_class v = true -> accept_flow_traffic_class v = true.
+Lemma accept_iff_repr_flow_traffic_class : forall v, accept_flow_traffic_class v = true <-> repr_flow_traffic_class v = true.
 Proof. intros v; unfold accept_flow_traffic_class, repr_flow_traffic_class; text_iff. Qed.
+Lemma accepted_encodes_flow_traffic_class : forall v, accept_flow_traffic_class v = true -> dec_flow_traffic_class (enc_flow_traffic_class v) = v /\ length (enc_flow_traffic_class v) = 1%nat.
+Proof. intros v H. apply representable_encodes_flow_traffic_class. apply accept_iff_repr_flow_traffic_class. exact H. Qed.
 
 (* flow_flow_label *)
 Lemma representable_encodes_flow_flow_label : forall v, repr_flow_flow_label v = true -> dec_flow_flow_label (enc_flow_flow_label v) = v /\ In (length (enc_flow_flow_label v)) [1%nat; 2%nat; 4%nat].
@@ -334,23 +334,23 @@ Proof. intros v H. apply representable_encodes_mask_ipv6. apply accept_iff_repr_
 (* flow_mask_ipv4 *)
 Lemma representable_encodes_flow_mask_ipv4 : forall v, repr_flow_mask_ipv4 v = true -> dec_flow_mask_ipv4 (enc_flow_mask_ipv4 v) = v /\ length (enc_flow_mask_ipv4 v) = 1%nat.
 Proof. intros v H. apply (within_encodes 32); [lia | exact H]. Qed.
-Lemma flow_mask_ipv4_refuted : exists v, accept_flow_mask_ipv4 v <> repr_flow_mask_ipv4 v.
-Proof. text_refute (33). Qed.
-Lemma flow_mask_ipv4_partial : forall v, repr_flow_mask_ipv4 v = true -> accept_flow_mask_ipv4 v = true.
+Lemma accept_iff_repr_flow_mask_ipv4 : forall v, accept_flow_mask_ipv4 v = true <-> repr_flow_mask_ipv4 v = true.
 Proof. intros v; unfold accept_flow_mask_ipv4, repr_flow_mask_ipv4; text_iff. Qed.
+Lemma accepted_encodes_flow_mask_ipv4 : forall v, accept_flow_mask_ipv4 v = true -> dec_flow_mask_ipv4 (enc_flow_mask_ipv4 v) = v /\ length (enc_flow_mask_ipv4 v) = 1%nat.
+Proof. intros v H. apply representable_encodes_flow_mask_ipv4. apply accept_iff_repr_flow_mask_ipv4. exact H. Qed.
 
 (* flow_mask_ipv6 *)
 Lemma representable_encodes_flow_mask_ipv6 : forall v, repr_flow_mask_ipv6 v = true -> dec_flow_mask_ipv6 (enc_flow_mask_ipv6 v) = v /\ length (enc_flow_mask_ipv6 v) = 1%nat.
 Proof. intros v H. apply (within_encodes 128); [lia | exact H]. Qed.
-Lemma flow_mask_ipv6_refuted : exists v, accept_flow_mask_ipv6 v <> repr_flow_mask_ipv6 v.
-Proof. text_refute (129). Qed.
-Lemma flow_mask_ipv6_partial : forall v, repr_flow_mask_ipv6 v = true -> accept_flow_mask_ipv6 v = true.
+Lemma accept_iff_repr_flow_mask_ipv6 : forall v, accept_flow_mask_ipv6 v = true <-> repr_flow_mask_ipv6 v = true.
 Proof. intros v; unfold accept_flow_mask_ipv6, repr_flow_mask_ipv6; text_iff. Qed.
+Lemma accepted_encodes_flow_mask_ipv6 : forall v, accept_flow_mask_ipv6 v = true -> dec_flow_mask_ipv6 (enc_flow_mask_ipv6 v) = v /\ length (enc_flow_mask_ipv6 v) = 1%nat.
+Proof. intros v H. apply representable_encodes_flow_mask_ipv6. apply accept_iff_repr_flow_mask_ipv6. exact H. Qed.
 
 (* rd, <number>:<number> form *)
 Lemma representable_encodes_rd : forall n s, repr_rd n s = true -> dec_rd (enc_rd n s) = (n, s) /\ length (enc_rd n s) = 8%nat.
 Proof. exact rd_encodes. Qed.
-Lemma rd_refuted : exists n s, accept_rd n s <> repr_rd n s.
-Proof. exists (-1), 1; vm_compute; discriminate. Qed.
-Lemma rd_partial : forall n s, repr_rd n s = true -> accept_rd n s = true.
+Lemma accept_iff_repr_rd : forall n s, accept_rd n s = true <-> repr_rd n s = true.
 Proof. intros n s; unfold accept_rd, repr_rd; text_iff. Qed.
+Lemma accepted_encodes_rd : forall n s, accept_rd n s = true -> dec_rd (enc_rd n s) = (n, s) /\ length (enc_rd n s) = 8%nat.
+Proof. intros n s H. apply rd_encodes. apply accept_iff_repr_rd. exact H. Qed.
